@@ -45,6 +45,16 @@ Theorem C08_full_cnf_empty_list_refuted :
 Proof. exact full_cnf_empty_list. Qed.
 Print Assumptions C08_full_cnf_empty_list_refuted.
 
+(** /repo 4d027cb: [ExactlyK] on a window in which the factor has no level adds And([1, -1]) (k <> 0) or nothing
+    (k = 0) instead of an EQ request on no variable: no request of its contribution has an empty variable list,
+    for every record (inside F1 or not), so the compilation no longer reaches the error above through [ExactlyK] *)
+Theorem C08_exactlyk_empty_list_total :
+  forall (fb : flat) (k f l : nat) (wb : option geometry) (fresh : Z) (ct : contrib),
+    apply_exactlyk fb k f l wb fresh = COk ct ->
+    Forall (fun q : req => snd q <> nil) (ct_requests ct).
+Proof. exact exactlyk_empty_list_total. Qed.
+Print Assumptions C08_exactlyk_empty_list_total.
+
 Theorem C08_inarow_short_window_total :
   forall (fb : flat) (k f l : nat) (wb : option geometry) (fresh : Z) (vls : list (list nat)),
     var_lists fb f l wb = COk vls ->
